@@ -243,9 +243,25 @@ def check(ck):
         ck.ob(R2, rfa.key(None, "cut-first-hash"), len(cut) == 1, "the symbolic name is cut at the first %r" % d_version if len(cut) == 1 else
               "the symbolic dependency name is not cut at the first %r (a version containing it would leak into the name)" % d_version, rfa.where())
         wc = [s for s in ini.stmts(ast.Assign) if any(A.dotted(t) == "self._qualified_name_without_cluster" for t in s.targets)]
-        ok4 = len(wc) == 1 and ".find(%r)" % d_cluster in A.norm(wc[0].value)
+        ok4 = len(wc) == 1 and "call:find" in ini.deps(wc[0].value) and ("const:%r" % d_cluster) in ini.deps(wc[0].value)
         ck.ob(R2, ini.key(None, "without-cluster"), ok4, "the cluster prefix is cut at the first %r" % d_cluster if ok4 else
               "qualified_name_without_cluster is not cut at the first %r" % d_cluster, ini.where())
+        # the cluster delimiter is looked for in the name BEFORE the version is appended: the
+        # version is unrestricted and may itself contain the delimiter
+        probes = []
+        for n in A.walk_body(ini.node):
+            if isinstance(n, ast.Compare) and len(n.ops) == 1 and isinstance(n.ops[0], (ast.In, ast.NotIn)) and A.const_str(n.left) == d_cluster:
+                probes.append((n, n.comparators[0]))
+            if isinstance(n, ast.Call) and A.call_attr(n) in ("find", "index", "split", "partition") and n.args and A.const_str(n.args[0]) == d_cluster:
+                probes.append((n, A.call_recv(n)))
+        for (n, subject) in probes:
+            d = ini.deps(subject)
+            tainted = "param:version" in d or "call:version" in d
+            ck.ob(R2, ini.qual + "::delimiter-probe::" + A.norm(subject), not tainted,
+                  "the cluster delimiter is looked for in the unversioned name" if not tainted else
+                  "`%s` looks for %r in a string that already contains the version: a version containing %r (e.g. 'a::b') is taken for a cluster "
+                  "prefix, so the cluster is dropped from an external reference and qualified_name_without_cluster is cut inside the version"
+                  % (A.short(n, 50), d_cluster, d_cluster), ini.where(n))
 
     from .c05 import check_escape_inverse
     check_escape_inverse(ck, R2)
@@ -253,15 +269,56 @@ def check(ck):
     fq = FA(ck, FR + ".from_qualified_name")
     ff = FA(ck, FR + "._find_function")
     may = set()
-    for r in ff.stmts(ast.Raise):
-        if isinstance(r.exc, ast.Call):
-            may.add(A.call_attr(r.exc))
+    frcls = ck.repo.cls(FR)
+    lookup_fns = [ff]
     for c in ff.calls():
-        nm = A.call_attr(c)
-        if nm == "import_module":
-            may.add("ModuleNotFoundError")
-        if nm == "getattr" and len(c.args) == 2:
-            may.add("AttributeError")
+        # helpers of the same class the lookup delegates to (one level)
+        if isinstance(c.func, ast.Attribute) and A.norm(c.func.value) in ("FunctionReference", "cls", "self") and c.func.attr in frcls.methods \
+                and c.func.attr not in ("_find_function", "from_qualified_name"):
+            lookup_fns.append(FA(ck, frcls.methods[c.func.attr]))
+    for f in lookup_fns:
+        for r in f.stmts(ast.Raise):
+            if isinstance(r.exc, ast.Call):
+                may.add(A.call_attr(r.exc))
+        for c in f.calls():
+            nm = A.call_attr(c)
+            if nm == "import_module":
+                may.add("ModuleNotFoundError")
+            if nm == "getattr" and len(c.args) == 2:
+                may.add("AttributeError")
+    # every function the lookup hands out comes from a fresh import walk followed by the version
+    # check (a function remembered from an earlier lookup may have been edited or removed since)
+    def fresh_resolver(f):
+        d = set()
+        for r in f.returns():
+            if r.value is not None:
+                d |= f.deps(r.value)
+        has_cmp = any(isinstance(n, ast.Compare) and "version" in A.norm(n) and isinstance(n.ops[0], ast.NotEq) for n in A.walk_body(f.node))
+        return "call:import_module" in d and has_cmp
+    helpers_fresh = {f.fi.name for f in lookup_fns[1:] if fresh_resolver(f)}
+    for r in ff.returns():
+        if r.value is None:
+            continue
+        names = [n.id for n in ast.walk(r.value) if isinstance(n, ast.Name) and ff.df.is_local(n.id) and n.id not in ff.fi.params]
+        bad = []
+        for nm in set(names):
+            for i in ff.nodes(r):
+                for d in ff.df.reaching(i, nm):
+                    if d.value is None or d.kind != "assign":
+                        continue
+                    dd = ff.df.deps(d.value, d.node)
+                    via_helper = any(("call:" + h) in dd for h in helpers_fresh)
+                    if "call:import_module" not in dd and not via_helper and ("call:get" in dd or "op:subscript" in dd) \
+                            and any(x.startswith("global:") and x[7:] not in ("ArgumentHasher", "importlib", "FunctionReference", "MementoFunctionType", "callable", "isinstance", "getattr", "tuple", "list", "ValueError") for x in dd):
+                        bad.append((nm, d))
+        if bad:
+            ck.ob(R3, ff.key(r, "lookup-is-fresh"), False,
+                  "the function returned by the lookup can come from `%s` instead of a fresh import walk and version check: after the callee is "
+                  "edited or removed, stored references to its old version keep resolving to the stale function instead of becoming external"
+                  % A.short(bad[0][1].value, 60), ff.where(bad[0][1].stmt))
+    vc = [n for f in lookup_fns for n in A.walk_body(f.node) if isinstance(n, ast.Compare) and isinstance(n.ops[0], ast.NotEq) and "version()" in A.norm(n.left)]
+    ck.ob(R3, ff.key(None, "version-checked"), bool(vc), "the looked-up function's current version is compared with the stored one" if vc else
+          "the lookup no longer compares memento_fn.version() with the stored version", ff.where())
     fcall = fq.one(fq.calls("_find_function"), "_find_function call")
     handlers = []
     n = fcall
